@@ -5,12 +5,13 @@
    Tied to the code by the `backend-s3-requests` correspondence (the fake's request log).
    Definitions only. *)
 From Coq Require Import List Bool Ascii String Arith ZArith.
-Require Import DS.Model.Str DS.Gen.GenS3 DS.Model.Backend DS.Model.Retry.
+Require Import DS.Model.Str DS.Gen.GenS3 DS.Gen.GenRange DS.Model.Range DS.Model.Backend DS.Model.Retry.
 Import ListNotations.
 
 Inductive req :=
 | RGet (k : str) | RHead (k : str) | RPut (k : str) | RDelete (k : str)
-| RList (p : str) (maxkeys1 : bool).
+| RList (p : str) (maxkeys1 : bool)
+| RGetR (k : str) (first last : Z).        (* GetObject with Range: bytes=first-last *)
 
 (* attempts with_s3_retry makes when every attempt ends the same way: a value, or the FileNotFoundError
    the backend raises for a missing object (an OSError: retryable, not permanent) *)
@@ -30,10 +31,30 @@ Definition s3_trace (page : nat) (pfx : str) (b : bucket) (o : op str) : list re
     let P := gen_list_prefix pfx p in repeat (RList P false) (pages (List.length (s3_list_objects b P)) page)
   | Delete p => [RDelete (gen_get_s3_key pfx p)]
   | Size p | Mtime p => let k := gen_get_s3_key pfx p in repeat (RHead k) (attempts_of (negb (has str_eqb k b)))
+  | Open p prog =>
+    (* get_size's HEADs, then one ranged GET per read that needs bytes (on the raw reader) *)
+    let hk := gen_get_s3_key pfx (gen_open_size_path p) in
+    repeat (RHead hk) (attempts_of (negb (has str_eqb hk b)))
+    ++ map (fun r => RGetR (gen_open_key pfx p) (fst r) (snd r)) (snd (s3_open pfx b p prog))
+  | Stream p | ReadTag p => let k := gen_get_s3_key pfx p in repeat (RGet k) (attempts_of (negb (has str_eqb k b)))
+  | WriteCas p _ => let k := gen_get_s3_key pfx p in repeat (RGet k) (attempts_of (negb (has str_eqb k b))) ++ [RPut k]
   end.
 
 Fixpoint run_trace (page : nat) (pfx : str) (b : bucket) (ops : list (op str)) : list (list req) :=
   match ops with
   | [] => []
   | o :: ops' => s3_trace page pfx b o :: run_trace page pfx (fst (s3_step pfx b o)) ops'
+  end.
+
+(* "requesting only in-range bytes": a ranged GET names an object that exists, within its size *)
+Definition ranged_ok (b : bucket) (r : req) : Prop :=
+  match r with
+  | RGetR k first last => exists v, lookup str_eqb k b = Some v /\ in_range v (first, last)
+  | _ => True
+  end.
+
+Fixpoint ranges_in_objects (page : nat) (pfx : str) (b : bucket) (ops : list (op str)) : Prop :=
+  match ops with
+  | [] => True
+  | o :: ops' => Forall (ranged_ok b) (s3_trace page pfx b o) /\ ranges_in_objects page pfx (fst (s3_step pfx b o)) ops'
   end.
